@@ -138,7 +138,7 @@ func MemCfg(name string) *hnsw.MemoryConfig {
 func batchOf(items []Item) []types.BatchObject {
 	out := make([]types.BatchObject, len(items))
 	for i, it := range items {
-		out[i] = types.BatchObject{Id: it.ID, Vector: cloneVec(it.V), Metadata: cloneMeta(it.M)}
+		out[i] = types.BatchObject{Id: it.ID, Vector: cloneVec(it.V), Metadata: engineMeta(it.M)}
 	}
 	return out
 }
@@ -178,7 +178,7 @@ func (w *World) apply(pos int, o Op) error {
 	case VDropIndex:
 		return e.VDeleteIndex(o.I)
 	case VAdd:
-		return e.VAdd(o.I, o.ID, cloneVec(o.V), cloneMeta(o.M))
+		return e.VAdd(o.I, o.ID, cloneVec(o.V), engineMeta(o.M))
 	case VAddBatch:
 		return e.VAddBatch(o.I, batchOf(o.Items))
 	case VImport:
